@@ -319,13 +319,29 @@ static void cmd_gen(void) {
     free_objects(o);
 }
 
+// destination objects start dirty but valid (bools are real bools): what an unmarshal writes must not depend on what was there
+static unsigned g_dirty_obj;
+static void dirty_objects(Objects& o) {
+    unsigned mode = g_dirty_obj++ % 3;
+    if (mode == 0) return;                                  // all-zero (as before)
+    embedded_pairing_wkdibe_g1_t* h = o.wp.h; embedded_pairing_wkdibe_freeslot_t* b = o.wsk.b;
+    memset(&o, mode == 1 ? 0x5a : 0xc3, sizeof o);
+    o.wp.h = h; o.wsk.b = b;
+    o.wp.signatures = mode == 1; o.wsk.signatures = mode != 1; o.sig = false;
+    o.wp.l = 7; o.wsk.l = 5; o.l = 0;
+    G1Affine& q = *reinterpret_cast<G1Affine*>(&o.lid.q); G1Affine& sq = *reinterpret_cast<G1Affine*>(&o.lsk.sq); G2Affine& rp = *reinterpret_cast<G2Affine*>(&o.lct.rp);
+    if (mode == 1) { q.infinity = true; sq.infinity = true; rp.infinity = true; }       // "the identity" with arbitrary coordinates
+    else { q.copy(G1Affine::generator); sq.copy(G1Affine::generator); rp.copy(G2Affine::generator); }
+    G2Affine& lp1 = *reinterpret_cast<G2Affine*>(&o.lp.p); (void) lp1;
+}
+
 static void cmd_unm(void) {
     int kind = kind_of(arg(1)); bool c = argi(2) != 0, checked = argi(3) != 0;
     size_t n; uint8_t* raw = unhex_var(arg(4), &n);
     g_shift = g_ntok > 5 ? (size_t) argi(5) : 0;
     Buf b = buf_alloc(n); memcpy(b.p, raw, n); free(raw);
     g_shift = 0;
-    Objects o; memset(&o, 0, sizeof o);
+    Objects o; memset(&o, 0, sizeof o); dirty_objects(o);
     int sl;
     int ok = do_unmarshal(kind, o, b.p, n, c, checked, &sl);
     printf(" setlen=%d accepted=%d", sl, ok);
